@@ -152,6 +152,8 @@ func concatParts(v ssa.Value) []ssa.Value {
 
 func runC12(c *Ctx, r *Report) {
 	defer c12r6(c, r)
+	defer c12r7(c, r)
+	defer c09r1(c, r) // {+} lists items in the order they were selected: re-selecting must not re-stamp
 	l := c.L
 	// ---------------- R1 ----------------
 	r.rule("C12-R1", "H (constants evaluated in a model of single-quote lexing)", "P1",
